@@ -360,7 +360,7 @@ func init() {
 		e.P("def bodyErrReturned : Bool := %s", LeanBool(bodyErr && both))
 
 		// ---- ReadPacket
-		unknownPkt, recovers := false, false
+		unknownPkt, recovers, badHdrPkt := false, false, false
 		var prefix int64 = -1
 		if v, ok := evalInt(&ast.Ident{Name: "TransferPrefix"}, pk); ok {
 			prefix = v
@@ -380,6 +380,23 @@ func init() {
 				e.Unknown("ReadPacket final return")
 			}
 			src := Src(fd.Body)
+			// what the header-error branch returns: `return nil, err` or `return p, err`
+			ast.Inspect(fd.Body, func(n ast.Node) bool {
+				if is, ok := n.(*ast.IfStmt); ok && is.Init != nil && strings.Contains(Src(is.Init), "nmarshal") && Src(is.Cond) == "err != nil" {
+					for _, st := range is.Body.List {
+						if r, ok := st.(*ast.ReturnStmt); ok && len(r.Results) == 2 {
+							switch Src(r.Results[0]) {
+							case "nil":
+							case "p":
+								badHdrPkt = true
+							default:
+								e.Unknown("ReadPacket header-error return")
+							}
+						}
+					}
+				}
+				return true
+			})
 			switch {
 			case strings.Contains(src, "p.Header.Unmarshal(p.Data)"):
 			case strings.Contains(src, "unmarshalHeader(&p.Header, p.Data)"):
@@ -406,6 +423,8 @@ func init() {
 		e.P("def channelCount : Nat := %d", chCount)
 		e.P("/-- ReadPacket's last statement returns the packet (not nil) with the unknown-channel error -/")
 		e.P("def unknownChannelReturnsPacket : Bool := %s", LeanBool(unknownPkt))
+		e.P("/-- an RTP header that does not parse: ReadPacket returns the packet (not nil) with the error -/")
+		e.P("def badHeaderReturnsPacket : Bool := %s", LeanBool(badHdrPkt))
 		e.P("/-- the RTP header is parsed through a wrapper that recovers from a panic of pion's Unmarshal -/")
 		e.P("def rtpUnmarshalRecovers : Bool := %s", LeanBool(recovers))
 		// Packet.Write: guards and the two writes in order
